@@ -217,6 +217,12 @@ func (e *Engine) execInstr(st *State, b *ssa.BasicBlock, idx int, in ssa.Instruc
 		case *types.Pointer:
 			at := t.Elem().Underlying().(*types.Array)
 			p := e.asPtr(st, xv)
+			if p.Kind == pField && len(p.Path) == 1 {
+				// array-typed field of a heap struct
+				e.boundsCheck(st, in, iv, e.intLit(at.Len(), tInt), e.instrLabel(fr, in), false)
+				fr.regs[x] = ptrVal(&Ptr{Kind: pFieldElem, Ref: p.Ref, Idx: iv, Root: p.Root, Path: []int{p.Path[0]}}, x.Type())
+				return true
+			}
 			if p.Kind != pBox || len(p.Path) != 0 {
 				limitf("index into array that is a struct field")
 			}
@@ -619,6 +625,33 @@ func (e *Engine) sliceOp(st *State, x *ssa.Slice, in ssa.Instruction) Val {
 }
 
 func (e *Engine) makeInterface(st *State, v Val, from, to types.Type) Val {
+	r := e.makeInterface0(st, v, from, to)
+	// dynamic dispatch of pure methods: I.M(box(v)) == T.M(v) when both are declared pure
+	if it, ok := to.Underlying().(*types.Interface); ok && v.K == kTerm {
+		ms := types.NewMethodSet(from)
+		for i := 0; i < it.NumMethods(); i++ {
+			m := it.Method(i)
+			sig := m.Type().(*types.Signature)
+			if sig.Params().Len() != 0 || sig.Results().Len() != 1 || !e.P.pures[e.P.ifaceKey(to, m.Name())] {
+				continue
+			}
+			sel := ms.Lookup(m.Pkg(), m.Name())
+			if sel == nil {
+				continue
+			}
+			fn := e.P.prog.MethodValue(sel)
+			if fn == nil || !(e.P.pures[fn.String()] || e.P.pures[e.P.funcKey(fn)]) {
+				continue
+			}
+			a := e.pureMethodApp(st, to, m.Name(), r, nil, sig)
+			b := e.pureApp(st, fn, []Val{v})
+			st.assume(fmt.Sprintf("(= %s %s)", a.T, b.T))
+		}
+	}
+	return r
+}
+
+func (e *Engine) makeInterface0(st *State, v Val, from, to types.Type) Val {
 	id := e.S.TypeID(from)
 	switch from.Underlying().(type) {
 	case *types.Pointer, *types.Map, *types.Chan:
